@@ -65,6 +65,12 @@ type c05Cast struct {
 	stranger   *world.Ident
 	sibling    *world.Ident
 	chain      [][]*x509.Certificate
+
+	strangerEKU  *world.Ident // self-signed stranger whose certificate claims id-kp-OCSPSigning
+	siblingDeleg *world.Ident // responder with OCSPSigning EKU issued by the sibling CA (same DN as the issuer, other key)
+	delegAny     *world.Ident // issued by the issuer, EKU anyExtendedKeyUsage
+	delegClient  *world.Ident // issued by the issuer, EKU clientAuth only
+	leafAny      *world.Ident // a client certificate with EKU clientAuth + any (it answers about itself)
 }
 
 func newC05Cast() *c05Cast {
@@ -75,6 +81,11 @@ func newC05Cast() *c05Cast {
 	c.delegNoEKU = world.Issue(c.issuer, world.CertOpt{CN: "delegated responder without eku", Serial: big.NewInt(52), KeyKind: "rsa", KeyIdx: 3})
 	c.stranger = world.Issue(nil, world.CertOpt{CN: "stranger responder", Serial: big.NewInt(53), KeyKind: "rsa", KeyIdx: 4})
 	c.sibling = world.Issue(p.Root, world.CertOpt{Subject: &c.issuer.Cert.Subject, IsCA: true, KeyKind: "rsa", KeyIdx: 5, Serial: big.NewInt(54)})
+	c.strangerEKU = world.Issue(nil, world.CertOpt{CN: "stranger responder with eku", Serial: big.NewInt(55), KeyKind: "rsa", KeyIdx: 4, ExtKeyUsage: []x509.ExtKeyUsage{x509.ExtKeyUsageOCSPSigning}})
+	c.siblingDeleg = world.Issue(c.sibling, world.CertOpt{CN: "sibling delegated responder", Serial: big.NewInt(56), KeyKind: "rsa", KeyIdx: 6, ExtKeyUsage: []x509.ExtKeyUsage{x509.ExtKeyUsageOCSPSigning}})
+	c.delegAny = world.Issue(c.issuer, world.CertOpt{CN: "delegated any eku", Serial: big.NewInt(57), KeyKind: "rsa", KeyIdx: 2, ExtKeyUsage: []x509.ExtKeyUsage{x509.ExtKeyUsageAny}})
+	c.delegClient = world.Issue(c.issuer, world.CertOpt{CN: "delegated clientauth eku", Serial: big.NewInt(58), KeyKind: "rsa", KeyIdx: 3, ExtKeyUsage: []x509.ExtKeyUsage{x509.ExtKeyUsageClientAuth}})
+	c.leafAny = world.Issue(c.issuer, world.CertOpt{CN: "c05 client any eku", Serial: big.NewInt(4243), KeyKind: "rsa", KeyIdx: 7, OCSP: []string{ocspURL}, ExtKeyUsage: []x509.ExtKeyUsage{x509.ExtKeyUsageClientAuth, x509.ExtKeyUsageAny}})
 	c.chain = world.Chain(c.leaf, c.issuer, p.Root)
 	return c
 }
@@ -97,13 +108,22 @@ func (c c05Case) String() string {
 	return s
 }
 
-var c05Signers = []string{"issuer", "delegated-eku", "delegated-no-eku", "client-own", "stranger-embedded", "stranger-bare", "sibling-ca", "delegated-eku-bare"}
+var c05Signers = []string{"issuer", "delegated-eku", "delegated-no-eku", "client-own", "stranger-embedded", "stranger-bare", "sibling-ca", "delegated-eku-bare",
+	"delegated-eku-any", "delegated-eku-clientauth", "client-own-eku-any", "stranger-embedded-ocspsigning", "sibling-delegated-eku"}
+
+// leafFor: the certificate whose status is asked (a special leaf for the case where the client answers about itself)
+func (k *c05Cast) leafFor(c c05Case) *world.Ident {
+	if c.Signer == "client-own-eku-any" {
+		return k.leafAny
+	}
+	return k.leaf
+}
 
 func (k *c05Cast) build(c c05Case) (body []byte, authentic bool) {
 	if c.RespStatus != 0 {
 		return world.OCSPErrorResponse(c.RespStatus), false
 	}
-	a := world.OCSPAnswer{Status: c.Status, Serial: k.leaf.Cert.SerialNumber, Issuer: k.issuer,
+	a := world.OCSPAnswer{Status: c.Status, Serial: k.leafFor(c).Cert.SerialNumber, Issuer: k.issuer,
 		ThisUpdate: vsched.Epoch.Add(-time.Minute), NextUpdate: time.Time{}}
 	if c.OtherSerial {
 		a.Serial = big.NewInt(999)
@@ -128,6 +148,16 @@ func (k *c05Cast) build(c c05Case) (body []byte, authentic bool) {
 		a.Signer = k.stranger
 	case "sibling-ca":
 		a.Signer = k.sibling
+	case "delegated-eku-any":
+		a.Signer, a.EmbedCert = k.delegAny, true
+	case "delegated-eku-clientauth":
+		a.Signer, a.EmbedCert = k.delegClient, true
+	case "client-own-eku-any":
+		a.Signer, a.EmbedCert = k.leafAny, true
+	case "stranger-embedded-ocspsigning":
+		a.Signer, a.EmbedCert = k.strangerEKU, true
+	case "sibling-delegated-eku":
+		a.Signer, a.EmbedCert = k.siblingDeleg, true
 	}
 	if c.OtherSerial {
 		authentic = false
@@ -157,9 +187,11 @@ func (k *c05Cast) run(c c05Case) (used, cached bool, v1, v2 Verdict, authentic b
 	res := seqWorld(func() {
 		w := NewOW(true, 10*time.Minute, nil, nil)
 		w.Net.Serve(ocspURL, "scripted", body)
-		v1 = w.Lookup(k.leaf, k.chain)
+		leaf := k.leafFor(c)
+		chain := world.Chain(leaf, k.issuer, k.p.Root)
+		v1 = w.Lookup(leaf, chain)
 		w.Net.Down(ocspURL)
-		v2 = w.Lookup(k.leaf, k.chain)
+		v2 = w.Lookup(leaf, chain)
 		w.Chk.Cleanup()
 	})
 	if res.Verdict != vsched.OK {
